@@ -24,7 +24,7 @@ def run(ctx):
     args = [os.path.join(BIN, "namecheck"), "-bin", os.path.join(BIN, "swagger"), "-work", os.path.join(ctx.work, "ngen"), "-out", ndir, "-seed", str(ctx.seed),
             "-known", os.path.join(VERIF, "KNOWN_FINDINGS.jsonl"), "-workers", "8"]
     if quick:
-        args += ["-names", "1500", "-opsets", "150", "-specs", "3", "-knownruns", "8", "-regress", "11"]
+        args += ["-names", "1500", "-opsets", "150", "-specs", "3", "-knownruns", "8", "-regress", "13"]
     else:
         args += ["-names", "12000", "-opsets", "1500", "-specs", "36", "-allmodes", "-sweep", "-regress", "60"]
     ctx.sh(args, timeout=14000)
